@@ -425,30 +425,22 @@ func vfRtoBFS(c *hx.Ctx, depth int) {
 			k0.Send(make([]byte, 8))
 		}
 		k0.flush(IKCP_FLUSH_FULL)
+		// states from level 4 on are the bulk of the frontier: they are kept as (parent, action) and rebuilt from the
+		// parent's copy when their turn comes
 		type st struct {
-			k     *KCP
-			now   uint32
-			depth int
-			path  string
+			k      *KCP
+			parent *st
+			act    int
+			now    uint32
+			depth  int
+			path   string
 		}
-		visited := map[uint64]bool{vfKCPKey(k0, 100000): true}
-		queue := []*st{{k: k0, now: 100000, path: fmt.Sprintf("[nodelay=%d, 4 segments in flight]", nd)}}
-		u.States++
-		for len(queue) > 0 {
-			s := queue[0]
-			queue = queue[1:]
-			if s.depth >= depth || time.Now().After(c.Deadline) {
-				if s.depth < depth {
-					u.Exhaustive, u.CapHit = false, "internal deadline"
-				}
-				continue
-			}
-			type act struct {
-				name string
-				do   func(k *KCP, now *uint32)
-			}
+		type act struct {
+			name string
+			do   func(k *KCP, now *uint32)
+		}
+		mkActs := func(now uint32) []act {
 			var acts []act
-			now := s.now
 			for _, off := range []int64{0, -1, -29, -1000, -20001, -30000, -59999, -60000, -60001, -(1 << 31) + 1, 1, -int64(now), int64(0xffffffff) - int64(now)} {
 				ts := uint32(int64(now) + off)
 				off := off
@@ -461,7 +453,37 @@ func vfRtoBFS(c *hx.Ctx, depth int) {
 				act{"tick(rto)+flush", func(k *KCP, n *uint32) { *n += k.rx_rto + 1; vfSetMs(*n); k.flush(IKCP_FLUSH_FULL) }},
 				act{"tick(61s)+flush", func(k *KCP, n *uint32) { *n += 61000; vfSetMs(*n); k.flush(IKCP_FLUSH_FULL) }},
 				act{"Send+flush", func(k *KCP, n *uint32) { k.Send(make([]byte, 8)); k.flush(IKCP_FLUSH_FULL) }})
-			for _, a := range acts {
+			return acts
+		}
+		// mat rebuilds a state that was kept as (parent, action); the copy stays with the state while its own children
+		// (contiguous in the queue) still refer to it
+		var mat func(s *st)
+		mat = func(s *st) {
+			if s.k != nil {
+				return
+			}
+			mat(s.parent)
+			s.k = vfCloneKCP(s.parent.k, func([]byte, int) {})
+			n := s.parent.now
+			vfSetMs(n)
+			mkActs(n)[s.act].do(s.k, &n)
+		}
+		visited := map[uint64]bool{vfKCPKey(k0, 100000): true}
+		queue := []*st{{k: k0, now: 100000, path: fmt.Sprintf("[nodelay=%d, 4 segments in flight]", nd)}}
+		u.States++
+		for len(queue) > 0 {
+			s := queue[0]
+			queue[0] = nil
+			queue = queue[1:]
+			if s.depth >= depth || time.Now().After(c.Deadline) {
+				if s.depth < depth {
+					u.Exhaustive, u.CapHit = false, "internal deadline"
+				}
+				continue
+			}
+			mat(s)
+			acts := mkActs(s.now)
+			for ai, a := range acts {
 				k2 := vfCloneKCP(s.k, func([]byte, int) {})
 				n2 := s.now
 				vfSetMs(n2)
@@ -490,7 +512,13 @@ func vfRtoBFS(c *hx.Ctx, depth int) {
 					if len(u.Samples) < 3 && s.depth+1 == depth && u.States%400 == 3 {
 						u.Samples = append(u.Samples, map[string]any{"path": path, "rto": k2.rx_rto})
 					}
-					queue = append(queue, &st{k: k2, now: n2, depth: s.depth + 1, path: path})
+					switch {
+					case s.depth+1 >= depth: // states at the depth bound are checked above but never expanded: not kept
+					case s.depth+1 >= 4:
+						queue = append(queue, &st{parent: s, act: ai, now: n2, depth: s.depth + 1, path: path})
+					default:
+						queue = append(queue, &st{k: k2, now: n2, depth: s.depth + 1, path: path})
+					}
 				}
 			}
 		}
